@@ -119,7 +119,7 @@ def ser(v) -> str:
 
 
 def show(v) -> str:
-    return repr(v).replace("PurePosixPath", "Path")
+    return ascii(v).replace("PurePosixPath", "Path")      # escapes: look-alike strings stay distinguishable in messages
 
 
 # ---------------------------------------------------------------------------------------------
@@ -305,6 +305,40 @@ FIXED_SEQS = [
 
 F3_WITNESS = ((1, 23), (12, 3))
 
+# strings Python's == / hash tell apart although they are canonically (NFC/NFD) or compatibly (NFKC/NFKD) equivalent, differ in
+# case only, or in surrounding white space: a fingerprint must keep them apart.  (escapes: the file stays normalisation-proof)
+EQUIV_STRS = [
+    "caf\u00e9", "cafe\u0301",                   # é precomposed / e + combining acute
+    "\u00c5", "A\u030a", "\u212b",              # Å / A + ring / ANGSTROM SIGN
+    "\ufb01le", "file",                           # ﬁ ligature (NFKC only)
+    "\uff11\uff12", "12", "\u00b2", "2",        # full-width digits, superscript two
+    "\u1e69", "s\u0323\u0307", "s\u0307\u0323",   # two combining marks, both orders
+    "\uac00", "\u1100\u1161",                   # Hangul syllable / jamo
+    "\u03a9", "\u2126",                          # Ω / OHM SIGN
+    "Stra\u00dfe", "STRASSE", "strasse", "a ", " a", "a\n", "a\t", "\u00a0", "A", "a",
+]
+EQUIV_STRS = [x.encode().decode("unicode_escape") if "\\" in x else x for x in EQUIV_STRS]
+
+
+def equiv_neighbours(v):
+    """Variants of a value that a too eager canonicalisation (unicode normal forms, case folding, stripping) would identify with it."""
+    import unicodedata
+    k = kind(v)
+    if k == "str":
+        out = [unicodedata.normalize(f, v) for f in ("NFC", "NFD", "NFKC", "NFKD")] + [v.lower(), v.upper(), v.casefold(), v.strip(), v + " "]
+        return [x for x in dict.fromkeys(out) if x != v]
+    if k == "path":
+        return [P(x) for x in equiv_neighbours(str(v)) if x and str(P(x)) == x]
+    if k == "bytes":
+        return [x for x in dict.fromkeys([v.lower(), v.upper(), v.strip()]) if x != v]
+    if is_seq(v):
+        out = []
+        for i, x in enumerate(v):
+            for y in equiv_neighbours(x)[:3]:
+                out.append(type(v)(y if j == i else z for j, z in enumerate(v)))
+        return out[:6]
+    return []
+
 
 def gen_scalar(rng):
     r = rng.random()
@@ -319,7 +353,7 @@ def gen_scalar(rng):
     if r < 0.48:
         return rng.choice([float(rng.randrange(100)), rng.random(), rng.uniform(-1e6, 1e6), float(2 ** rng.randrange(70))])
     if r < 0.72:
-        alphabet = rng.choice(["ab", "0123456789", "ab/._ ", "aé中\U0001F600"])
+        alphabet = rng.choice(["ab", "0123456789", "ab/._ ", "aé中\U0001F600", "eE\u0301\u00e9\u00c9\ufb01fi \uff11" + "1"])
         return "".join(rng.choice(alphabet) for _ in range(rng.choice([0, 1, 1, 2, 3, 8])))
     if r < 0.86:
         return bytes(rng.choice([97, 98, 48, 49, 0, 255]) for _ in range(rng.choice([0, 1, 1, 2, 4])))
@@ -366,6 +400,14 @@ def gen_pool(rng, n_random: int):
 
     for v in FIXED_SCALARS + FIXED_SEQS:
         add(v)
+    for x in EQUIV_STRS:
+        add(x)
+    for x in EQUIV_STRS[:16]:
+        add(P("d/" + x))
+        add((x,))
+    for x in EQUIV_STRS[:7]:
+        add(["k", (x, 1)])
+        add(x.encode())
     target = len(pool) + n_random
     guard = 0
     while len(pool) < target and guard < 50 * n_random:
@@ -375,6 +417,9 @@ def gen_pool(rng, n_random: int):
         w = recut(rng, v)
         if w is not None and len(pool) < target:
             add(w)
+        for w in equiv_neighbours(v)[:2]:
+            if len(pool) < target:
+                add(w)
     return pool
 
 
@@ -673,6 +718,9 @@ def stream_normpath(ctx):
 PATHS = ["/r/a", "/r/b", "/r/ab", "/r/a/b", "/r/a b", "/r/a/../b", "a", "b", "a/b", "/r/é", "/r/1", "/r/12", "/", "/r/task_m.py", "/r/d/task_m.py", "/q/task_m.py"]
 NAMES = ["task_a", "task_b", "task_ab", "a", "b", "", "task_a[0]", "task_a[1-23]", "task_a[12-3]", "é", "/r/a"]
 PATTERNS = ["*", "*.txt", "**/*.txt", "a", "b", "ab", "", "/r/a"]
+PATHS += ["/r/" + x for x in EQUIV_STRS[:16]] + ["/r/" + EQUIV_STRS[0] + "/task_m.py", "/r/" + EQUIV_STRS[1] + "/task_m.py", "/R/a", "/r/A"]
+NAMES += ["task_" + x for x in EQUIV_STRS[:9]] + ["Task_a", "task_a "]
+PATTERNS += ["*." + x for x in EQUIV_STRS[:5]] + ["*.TXT"]
 TREEPATHS = [(), ("k",), ("k", "l"), ("kl",), ("k", 0), ("k", 1), ("k", 10), (0,), (1,), (1, 23), (12, 3), (123,), (1, 2, 3), (12, 3, "k"), (1, 23, "k"),
              ("k", 1, 23), ("k", 12, 3), (0, "k"), ("0",), ("1", "23"), ("12", "3"), (0, 0), (-1,), (-2,)]
 
@@ -685,16 +733,19 @@ def sig_pool(rng):
     for p in PATHS[:6]:
         decls.append({"kind": "path", "p": p, "name": "other-name"})
     for b in NAMES:
-        for p in ["/r/task_m.py", "/r/d/task_m.py", "/q/task_m.py", "/r/a"]:
+        for p in ["/r/task_m.py", "/r/d/task_m.py", "/q/task_m.py", "/r/a", "/r/" + EQUIV_STRS[0] + "/task_m.py", "/r/" + EQUIV_STRS[1] + "/task_m.py"]:
             decls.append({"kind": "task", "base": b, "p": p})
         decls.append({"kind": "taskw", "name": b})
-    for root in [None, "/r", "/r/d", "/r/a", "/q"]:
+    for root in [None, "/r", "/r/d", "/r/a", "/q", "/r/" + EQUIV_STRS[2], "/r/" + EQUIV_STRS[3], "/r/" + EQUIV_STRS[4]]:
         for pat in PATTERNS:
             decls.append({"kind": "dir", "root": root, "pattern": pat})
     decls.append({"kind": "dir", "root": "/r", "pattern": "*", "name": "other-name"})
     combos = []
     for tp in TREEPATHS:
         combos.append(("arg", tp, "task_a", "/r/task_m.py"))
+    for x in EQUIV_STRS[:7]:
+        combos.append(("arg", ("k", x), "task_a", "/r/task_m.py"))
+        combos.append((x, (), "task_" + x, "/r/" + x + ".py"))
     for arg, tn, tpath in [("arg2", "task_a", "/r/task_m.py"), ("arg", "task_b", "/r/task_m.py"), ("arg", "task_a", "/q/task_m.py"),
                            ("arg", "task_a", None), ("return", "task_a", None), ("", "", None)]:
         for tp in [(), ("k",), (1, 23), (12, 3)]:
@@ -784,7 +835,7 @@ def check_sigs(ctx, decls, sigs, count=True):
         for ident, members in by_id.items():
             for i in members[1:]:
                 if sigs[i] != sigs[members[0]]:
-                    ctx.violation(f"sig-split: two {g} declarations with one identity {ident} have different signatures",
+                    ctx.violation(f"sig-split: two {g} declarations with one identity {ident!a} have different signatures",
                                   {"stream": "sig", "decls": [decls[members[0]], decls[i]]})
         for s, members in by_sig.items():
             for x in range(len(members)):
@@ -795,7 +846,7 @@ def check_sigs(ctx, decls, sigs, count=True):
                         if g == "python" and (d1["arg"], d1["tname"], d1["tpath"]) == (d2["arg"], d2["tname"], d2["tpath"]) \
                                 and f3_class(tuple(d1["tp"]), tuple(d2["tp"])) and f3_class(tuple(d2["tp"]), tuple(d1["tp"])):
                             fid = "F3"
-                        ctx.violation(f"sig-merge: different {g} identities {sig_identity(d1)} / {sig_identity(d2)} share one signature",
+                        ctx.violation(f"sig-merge: different {g} identities {sig_identity(d1)!a} / {sig_identity(d2)!a} share one signature",
                                       {"stream": "sig", "decls": [d1, d2]}, finding=fid)
         if count:
             m = len(idxs)
@@ -832,6 +883,51 @@ def stream_sigs(ctx):
 # ---------------------------------------------------------------------------------------------
 
 T0 = 1_600_000_000 * NS
+KIB = 1024
+MODEL_MAX_CONTENT = 4096     # longer contents are not sent through the line protocol (the model's state is sha(all bytes) at any size)
+
+
+def content_bytes(c) -> bytes:
+    """Same function as in hash_worker.py: list of bytes, or {"gen": [size, seed], "patch": [[offset, delta], …]}."""
+    if isinstance(c, dict):
+        size, seed = c["gen"]
+        pat = bytes((seed * 7 + j * 13) % 256 for j in range(256))
+        data = bytearray((pat * (size // 256 + 1))[:size])
+        for off, delta in c.get("patch", []):
+            data[off] = (data[off] + 1 + delta % 255) % 256
+        return bytes(data)
+    return bytes(c)
+
+
+def gen_big_ops(rng, sizes, nedits: int):
+    """Honest histories (fresh mtime for every write) over files whose sizes sit around powers of two; every edit changes ONE
+    byte, at the beginning / in the middle / at the end / at a random offset. Also: an empty file, and two files of equal
+    size and equal tail that differ in the first byte only."""
+    ops, clock = [], T0 + 1000 * NS
+    ops.append({"op": "write", "f": 2, "content": [], "mtime_ns": clock})
+    ops.append({"op": "state", "f": 2, "kind": "path", "sp": 0})
+    for size in sizes:
+        seed = rng.randrange(256)
+        places = [0, size // 2, size - 1, 1, size - 2] + [rng.randrange(size) for _ in range(max(0, nedits - 5))]
+        rng.shuffle(places)
+        patch = []
+        clock += 7 * NS
+        ops.append({"op": "write", "f": 0, "content": {"gen": [size, seed], "patch": []}, "mtime_ns": clock})
+        ops.append({"op": "state", "f": 0, "kind": rng.choice(["path", "pickle", "task"]), "sp": rng.randrange(4)})
+        for k, off in enumerate(places[:nedits]):
+            patch = [q for q in patch if q[0] != off] + [[off, rng.randrange(255)]]
+            single = rng.random() < 0.5            # either accumulate edits or apply this one alone
+            clock += rng.choice([1000, NS, 61 * NS])
+            ops.append({"op": "write", "f": 0, "content": {"gen": [size, seed], "patch": [patch[-1]] if single else list(patch)}, "mtime_ns": clock})
+            ops.append({"op": "state", "f": 0, "kind": rng.choice(["path", "path", "pickle", "task"]), "sp": rng.randrange(4)})
+        clock += NS
+        ops.append({"op": "write", "f": 1, "content": {"gen": [size, seed], "patch": [[0, 0]]}, "mtime_ns": clock})   # other file, differs in byte 0 only
+        ops.append({"op": "state", "f": 1, "kind": "path", "sp": rng.randrange(4)})
+        ops.append({"op": "write", "f": 1, "content": {"gen": [size, seed], "patch": []}, "mtime_ns": clock + 500})   # … and now equal to the first version
+        ops.append({"op": "state", "f": 1, "kind": "path", "sp": rng.randrange(4)})
+    return ops
+
+
 F4_WITNESS_OPS = [
     {"op": "write", "f": 0, "content": [118, 49], "mtime_ns": T0},
     {"op": "state", "f": 0, "kind": "path", "sp": 0},
@@ -921,7 +1017,7 @@ def check_ops(ctx, ops, obs, seq_id):
     for pos, op in enumerate(ops):
         o = op["op"]
         if o == "write":
-            files[op["f"]] = bytes(op["content"])
+            files[op["f"]] = content_bytes(op["content"])
             mtimes[op["f"]] = op["mtime_ns"]
         elif o == "utime":
             mtimes[op["f"]] = op["mtime_ns"]
@@ -966,6 +1062,8 @@ def check_ops(ctx, ops, obs, seq_id):
 
 def model_ops(ctx, ops, annotated):
     drv = ctx.driver()
+    # contents beyond MODEL_MAX_CONTENT occur only in the honest large-file histories, where no lookup can hit an entry with other bytes
+    annotated = [a for a in annotated if a[2] is None or len(a[2]) <= MODEL_MAX_CONTENT]
     lines = ["hash.memo.reset"]
     for op, ob, content in annotated:
         c = "none" if content is None else ".".join(str(b) for b in content)
@@ -986,6 +1084,13 @@ def stream_states(ctx):
     seqs = [list(F4_WITNESS_OPS)]
     for i in range(nseq):
         seqs.append(gen_ops(ctx.rng, ctx.rng.randint(12, 40), honest=(i % 2 == 0)))
+    big_from = len(seqs)
+    sizes = [64 * KIB, 256 * KIB - 1, 256 * KIB, 256 * KIB + 1, 1024 * KIB]
+    if ctx.thorough or ctx.budget > 1:
+        sizes += [8 * KIB, 128 * KIB + 1, 512 * KIB, 1024 * KIB + 1, 2048 * KIB - 1, 4096 * KIB + 3] + [ctx.rng.randrange(16, 3000 * KIB) for _ in range(4)]
+    for chunk in (sizes[0::2], sizes[1::2]):     # two processes
+        seqs.append(gen_big_ops(ctx.rng, chunk, 5 if not ctx.thorough else 9))
+    big_to = len(seqs)
     seqs.append(list(LINK_WITNESS_OPS))
     for i in range(max(2, nseq // 2)):      # the same histories with files also named through symbolic links
         seqs.append(gen_ops(ctx.rng, ctx.rng.randint(16, 44), honest=(i % 2 == 0), links=True))
@@ -999,8 +1104,10 @@ def stream_states(ctx):
     for i, (ops, obs) in enumerate(zip(seqs, results)):
         annotated = check_ops(ctx, ops, obs, i)
         ctx.dist["state_observations"] += len(annotated)
+        if big_from <= i < big_to:
+            ctx.dist["state_observations_large_files"] += len(annotated)
         ctx.dist["state_observations_through_symlink"] += sum(1 for op, _, _ in annotated if op.get("l") is not None)
-        if 1 <= i <= nseq and (i - 1) % 2 == 0 or i > nseq + 1 and (i - nseq - 2) % 2 == 0:
+        if 1 <= i <= nseq and (i - 1) % 2 == 0 or big_from <= i < big_to or i > big_to and (i - big_to - 1) % 2 == 0:
             ctx.dist["state_honest_sequences"] += 1
         if ctx.use_model:
             model_ops(ctx, ops, annotated)
@@ -1009,6 +1116,18 @@ def stream_states(ctx):
 # ---------------------------------------------------------------------------------------------
 # stream 6: collection normalises spellings (collect.py:424-477)
 # ---------------------------------------------------------------------------------------------
+
+COLLECT_FILES = ["f.txt", "d/f.txt", "d/g.txt", "e/f.txt",
+                 EQUIV_STRS[0] + ".txt", EQUIV_STRS[1] + ".txt", "d/" + EQUIV_STRS[5] + ".txt", "d/" + EQUIV_STRS[6] + ".txt", "F.txt"]
+COLLECT_DIRS = ["d", "e", "d/sub", "d/" + EQUIV_STRS[2], "d/" + EQUIV_STRS[3], "d/" + EQUIV_STRS[4]]
+
+
+def make_collect_tree(base: Path):
+    for sub in COLLECT_DIRS:
+        (base / sub).mkdir(parents=True, exist_ok=True)
+    for f in COLLECT_FILES:
+        (base / f).write_text(f)
+
 
 def spellings(base: str, root: str, target: str):
     """Relative / absolute / dotted spellings of base/target (target relative to the task directory `base`)."""
@@ -1024,12 +1143,12 @@ def spellings(base: str, root: str, target: str):
 
 def collect_decls(root: str, base: str):
     decls = []
-    for target in ["f.txt", "d/f.txt", "d/g.txt", "e/f.txt"]:
+    for target in COLLECT_FILES:
         rel, ab = spellings(base, root, target)
         for sp in rel + ab:
             for form in ("plain", "pathnode", "picklenode"):
                 decls.append({"form": form, "sp": sp, "target": target})
-    for target in ["d", "e", "d/sub"]:
+    for target in COLLECT_DIRS:
         rel, ab = spellings(base, root, target)
         for sp in rel + ab:
             for pat in ("*.txt", "*"):
@@ -1075,7 +1194,7 @@ def check_collect(ctx, base, decls, results, count=True):
         ids = {collect_identity(base, decls[i]) for i in members}
         if len(ids) > 1:
             i, j = members[0], next(m for m in members if collect_identity(base, decls[m]) != collect_identity(base, decls[members[0]]))
-            ctx.violation(f"collect-merge: {decls[i]['sp']!r} and {decls[j]['sp']!r} are different {'patterns' if key[1] else 'files'} but one DAG node",
+            ctx.violation(f"collect-merge: {decls[i]['sp']!a} and {decls[j]['sp']!a} are different {'patterns' if key[1] else 'files'} but one DAG node",
                           {"stream": "collect", "decls": [decls[i], decls[j]]})
     if count:
         n = len(decls)
@@ -1087,10 +1206,7 @@ def run_collect(decls):
     root = common.scratch_dir("c12col")
     try:
         base = root / "w"
-        for sub in ("d/sub", "e"):
-            (base / sub).mkdir(parents=True, exist_ok=True)
-        for f in ("f.txt", "d/f.txt", "d/g.txt", "e/f.txt"):
-            (base / f).write_text(f)
+        make_collect_tree(base)
         # the decls were generated for a symbolic root; re-root them
         return str(root), str(base), run_worker({"mode": "collect", "root": str(root), "base": str(base), "decls": decls})
     finally:
@@ -1101,10 +1217,7 @@ def stream_collect(ctx):
     root = common.scratch_dir("c12col")
     try:
         base = root / "w"
-        for sub in ("d/sub", "e"):
-            (base / sub).mkdir(parents=True, exist_ok=True)
-        for f in ("f.txt", "d/f.txt", "d/g.txt", "e/f.txt"):
-            (base / f).write_text(f)
+        make_collect_tree(base)
         decls = corpus_collect_decls(str(root), str(base)) + collect_decls(str(root), str(base))   # corpus first (F17, fixed: must pass)
         results = run_worker({"mode": "collect", "root": str(root), "base": str(base), "decls": decls}, ctx.rng.randrange(1, 2 ** 31))
     finally:
@@ -1204,6 +1317,11 @@ def file_scenarios(rng):
             {"content": [118, 49], "mtime_ns": t}, {"content": [118, 50], "mtime_ns": t}, {"content": [118, 50], "mtime_ns": t + NS}]},
         {"kind": "file", "steps": [{"content": [rng.randrange(256) for _ in range(rng.randint(0, 50))], "mtime_ns": t + i * NS * rng.choice([1, 60]) + 17}
                                    for i in range(4)]},
+        {"kind": "file", "steps": [  # a large dependency (just over 256 KiB): one byte changes at the beginning / the end; touch
+            {"content": {"gen": [256 * KIB + 1, 3], "patch": []}, "mtime_ns": t},
+            {"content": {"gen": [256 * KIB + 1, 3], "patch": [[0, 1]]}, "mtime_ns": t + 60 * NS},
+            {"content": {"gen": [256 * KIB + 1, 3], "patch": [[0, 1]]}, "mtime_ns": t + 120 * NS},
+            {"content": {"gen": [256 * KIB + 1, 3], "patch": [[0, 1], [256 * KIB, 5]]}, "mtime_ns": t + 180 * NS}]},
     ]
 
 
@@ -1226,7 +1344,7 @@ def run_scenario(sc, hashseed):
             cur_target = None
             for st in sc["steps"]:
                 if st["write"] is not None:
-                    (root / f"data{st['write']}.bin").write_bytes(bytes(st["content"]))
+                    (root / f"data{st['write']}.bin").write_bytes(content_bytes(st["content"]))
                     os.utime(root / f"data{st['write']}.bin", ns=(st["mtime_ns"], st["mtime_ns"]))
                 if st["target"] != cur_target:
                     lp = root / "in.lnk"
@@ -1243,7 +1361,7 @@ def run_scenario(sc, hashseed):
         else:
             (root / "task_m.py").write_text(TASK_FILE)
             for st in sc["steps"]:
-                (root / "in.bin").write_bytes(bytes(st["content"]))
+                (root / "in.bin").write_bytes(content_bytes(st["content"]))
                 os.utime(root / "in.bin", ns=(st["mtime_ns"], st["mtime_ns"]))
                 r = run_worker({"mode": "build", "root": str(root)}, hashseed)
                 r["product"] = list((root / "out.bin").read_bytes()) if (root / "out.bin").exists() else None
@@ -1266,7 +1384,7 @@ def check_scenario(ctx, sc, builds, sid):
         elif sc["kind"] == "link":
             cur = bytes(b["dep_bytes"])            # the bytes the declared path denotes (through the link) at build time
         else:
-            cur = bytes(sc["steps"][i]["content"])
+            cur = content_bytes(sc["steps"][i]["content"])
         replay = {"stream": "e2e", "scenario": _sc_json(sc), "upto": i + 1}
         ctx.case(("e2e", sid, i), i > 0)
         outc = b["outcomes"].get(name)
@@ -1311,9 +1429,9 @@ def _sc_from_json(j):
 def stream_e2e(ctx):
     scs = value_scenarios(ctx.rng) + file_scenarios(ctx.rng) + link_scenarios(ctx.rng)
     if ctx.thorough or ctx.budget > 1:
-        scs += value_scenarios(ctx.rng)[5:] + file_scenarios(ctx.rng)[2:] + link_scenarios(ctx.rng)[2:]
+        scs += value_scenarios(ctx.rng)[5:] + file_scenarios(ctx.rng)[2:3] + link_scenarios(ctx.rng)[2:]
     seeds = [ctx.rng.randrange(1, 2 ** 31) for _ in scs]
-    with ThreadPoolExecutor(max_workers=min(12, len(scs))) as ex:
+    with ThreadPoolExecutor(max_workers=min(16, len(scs))) as ex:
         results = list(ex.map(lambda a: run_scenario(*a), zip(scs, seeds)))
     for i, (sc, builds) in enumerate(zip(scs, results)):
         check_scenario(ctx, sc, builds, i)
@@ -1373,10 +1491,7 @@ def replay(ctx, obj):
         root = common.scratch_dir("c12col")
         try:
             base = root / "w"
-            for sub in ("d/sub", "e"):
-                (base / sub).mkdir(parents=True, exist_ok=True)
-            for f in ("f.txt", "d/f.txt", "d/g.txt", "e/f.txt"):
-                (base / f).write_text(f)
+            make_collect_tree(base)
             decls = [dict(d, sp=d["sp"].replace("@BASE", str(base)).replace("@ROOT", str(root))) for d in inp["decls"]]
             results = run_worker({"mode": "collect", "root": str(root), "base": str(base), "decls": decls}, seed + 1)
         finally:
